@@ -24,6 +24,11 @@ def h_get_full(ctx, n, r):
     ctx.claim('get_batch', ctx.all_eq(ym2, np.array([F[i] for i in B])))
     ym3 = teneva.get_many(Y, np.array(B))
     ctx.claim('get_many_array', ctx.all_eq(ym3, ym))
+    # negative positions count from the end, for single and batched access alike
+    neg = [tuple(-1 - (k % n[k]) for k in range(len(n))), tuple(-1 for _ in n)]
+    ctx.claim('get_negative_index', ctx.all_([ctx.eq(teneva.get(Y, list(i)), F[i]) for i in neg]))
+    ctx.claim('get_many_negative_index', ctx.all_eq(teneva.get_many(Y, [list(i) for i in neg]),
+                                                    np.array([F[i] for i in neg])))
     ctx.claim('sum', ctx.eq(teneva.sum(Y), F.sum()))
     ctx.claim('mean', ctx.eq(teneva.mean(Y) * int(np.prod(n)), F.sum()))
     ctx.claim('shape', list(teneva.shape(Y)) == list(n))
